@@ -432,7 +432,7 @@ def fetchAll (fuel : Nat) : List Proposal → SState → Proc (SState × Option 
         | some data =>
           Proc.call (.parseMessage data) fun r =>
             match r with
-            | .err true => .ret (st, some (.proto "unable-to-parse-message"))
+            | .parsed true eofClass => .ret (st, some (if eofClass then .eof else .proto "unable-to-parse-message"))
             | _ => Proc.call (.processInbound data) fun r =>
               match r with
               | .err true => .ret (st, some (.proto "process-inbound-failed"))
